@@ -100,6 +100,12 @@ CHECKS['C19'] = (
     'no-exception + batch-isolation monitor over every CLI format (list read from depccg/argparse.py) for trees covering every label the rule '
     'functions emit and the placeholder obtained from the real search',
     'ccg2lambda/jigg_xml_ccg2lambda are NOT covered (nltk missing) - stated gap.', 'Label coverage is enforced: a run that did not render every reachable label is inconclusive.', '§5 C19')
+CHECKS['C11'] = (
+    'history/schedule differencing of the real depccg.parsing.run: batch vs each sentence alone in a fresh call vs permutation vs subset '
+    '(in-process, plain + ASan), real multiprocessing path with injected per-worker delays vs in-process result, shape-mismatch inputs '
+    'with a parse_sentence call counter',
+    'Batches mixing parseable, unparseable, over-long, budget-exhausted and zero-token sentences; processes 1..8, chunk sizes 1..20.',
+    SEARCH_NOTE + ' Schedules are sampled.', '§3 C11')
 
 NOT_YET = {}
 
@@ -146,7 +152,7 @@ def main():
     print('claimed', len(checks), 'not claimed', len(na))
 
 
-HOOK_COMMITS = []
+HOOK_COMMITS = ['8c787c5']
 
 if __name__ == '__main__':
     main()
